@@ -23,7 +23,7 @@ use xor_name::XorName;
 pub struct C09;
 
 #[derive(Clone, Copy, Debug, PartialEq, Eq, PartialOrd, Ord)]
-enum Kind {
+pub(crate) enum Kind {
     Chunk,
     Pad,
     Tx,
@@ -39,7 +39,7 @@ struct KeyCase {
 
 /// what a stored value means, per kind
 #[derive(Clone, Debug, PartialEq, Eq)]
-enum Held {
+pub(crate) enum Held {
     None,
     Chunk(Vec<u8>),
     Pad(u64, Vec<u8>),
@@ -49,7 +49,7 @@ enum Held {
 }
 
 /// a stored transaction record that lists one transaction twice
-fn tx_duplicates(rec: &Option<Record>) -> bool {
+pub(crate) fn tx_duplicates(rec: &Option<Record>) -> bool {
     match rec {
         Some(r) => match try_deserialize_record::<Vec<Transaction>>(r) {
             Ok(v) => v.iter().collect::<BTreeSet<_>>().len() != v.len(),
@@ -59,7 +59,7 @@ fn tx_duplicates(rec: &Option<Record>) -> bool {
     }
 }
 
-fn held(kind: Kind, rec: Option<Record>) -> Held {
+pub(crate) fn held(kind: Kind, rec: Option<Record>) -> Held {
     let Some(rec) = rec else { return Held::None };
     match kind {
         Kind::Chunk => Held::Chunk(rec.value),
@@ -113,9 +113,15 @@ impl Check for C09 {
         tier.pick(std::time::Duration::from_secs(200), std::time::Duration::from_secs(2400))
     }
     fn required_counters(&self, _tier: Tier) -> Vec<&'static str> {
-        vec!["kind:Chunk", "kind:Pad", "kind:Tx", "kind:Reg", "advertisements-checked", "divergent-keys:Reg", "divergent-keys:Tx", "divergent-keys:Pad", "advertiser:unknown", "advertiser:known-not-closest", "advertiser:closest", "chunks-replicated", "nodes:3", "ranged-cases", "seeding:direct-put", "seeding:through-validation"]
+        vec!["kind:Chunk", "kind:Pad", "kind:Tx", "kind:Reg", "advertisements-checked", "divergent-keys:Reg", "divergent-keys:Tx", "divergent-keys:Pad", "advertiser:unknown", "advertiser:known-not-closest", "advertiser:closest", "chunks-replicated", "nodes:3", "ranged-cases", "seeding:direct-put", "seeding:through-validation", "realnet:converged", "realnet:periodic-rounds-run"]
+    }
+    fn lane_cases(&self, tier: Tier) -> u64 {
+        tier.pick(8, 64)
     }
     fn run_case(&self, cx: &mut Cx) {
+        if cx.index >= LANE_BASE {
+            return crate::realcases::c09_case(cx);
+        }
         if cx.index % 4 == 3 {
             advertiser_case(cx)
         } else {
